@@ -28,10 +28,10 @@ func init() {
 
 func runC16(c *Ctx) {
 	r := c.R
-	r.Rule("R16-exit-halts", "every way out of the command loop halts the search and clears the active flag before the output channel is closed", 10)
+	r.Rule("R16-exit-halts", "every way out of the command loop halts the search and clears the active flag before the output channel is closed", 3)
 	r.Rule("R16-close-owner", "the output channel is sent to only by the goroutine that closes it or by goroutines it has joined before closing", 1)
 	r.Rule("R16-stale", "a goroutine that can complete a search is tied to that search: joined before the next search is armed, or guarded by a per-search token; info lines are printed only for the search they belong to; the cleared flag cannot be won", 3)
-	r.Rule("R16-ready", "isready is always answered; no command other than quit (or end of input / close) terminates the command loop", 10)
+	r.Rule("R16-ready", "isready is always answered; no command other than quit (or end of input / close) terminates the command loop", 3)
 	r.Rule("R16-locks", "engine state is accessed only with the engine mutex held; driver state that is not atomic is touched only by the command-loop goroutine; goroutines started by the driver capture only the driver, the context, the result channel and the infinite flag", 4)
 	r.Rule("R16-noblock", "no mutex is held across a blocking channel receive whose producer needs the same mutex (the halt/publish hand-shake cannot deadlock)", 1)
 	r.Rule("R16-nojoin", "state shared between a halted search that is still unwinding and its successor is immutable, atomic or lock-protected: the evaluation-noise generator guards its non-thread-safe source with a mutex", 1)
